@@ -28,7 +28,7 @@ LD = np.longdouble
 L = 40                                   # length of the pool arrays used in histories
 
 BITS = [2, 3, 4, 5, 6, 7, 8]
-TMEAN = [0, 0.5, -3, 200]
+TMEAN = [0, 0.5, -3, 200, -0.7]          # 0.5: a rounding tie; -0.7: rounding and truncation disagree
 FWHM = [1, 8, 32, 1000]
 NSAMP = [1, 3, 10000]
 PERIODS = [-2, -1, 0, 1, 2, 3]
@@ -651,7 +651,7 @@ def _hist_cases(seed, depth, subs, bits=BITS, tmean=TMEAN, fwhm=FWHM, nsamp=NSAM
 def run(ctx):
     seed = ctx.seed
     boxes = []
-    T4 = [(0, 32), (0.5, 8), (-3, 1), (200, 1000)]
+    T4 = [(0, 32), (0.5, 8), (-3, 1), (200, 1000), (-0.7, 8)]
     if ctx.tier == 'quick':
         # A: the complete parameter product, every sequence of length 3
         boxes.append(dict(name='A', depth=3, subs=['S1']))
